@@ -171,6 +171,17 @@ Theorem C03_set_data_clones_refused : forall w ti n t s m q0 i l x e,
 Proof. exact set_data_clones_refused. Qed.
 Print Assumptions C03_set_data_clones_refused.
 
+(* set_data(new data): the data_id calculated from the new data is a sibling's *)
+Theorem C03_set_data_by_data_refused : forall w ti n t s q0 i l x d e wcl,
+  WFw w -> get_tree w ti = Some t -> get_node n (forest_of t) = Some s ->
+  Z.eqb (d_obj d) (i_obj (rinfo s)) = false ->
+  calc_id (calc t) d = Some e -> e <> rdid s ->
+  (Nat.ltb 1 (length (idx_get (rdid s) (idx t))) = false \/ wcl = Some false) ->
+  node_loc n (forest_of t) = Some (q0, i, l) -> In x l -> rid x <> n -> rdid x = e ->
+  fst (step w (OSetData ti n (Some d) None wcl)) = Err EUnique.
+Proof. exact set_data_by_data_refused. Qed.
+Print Assumptions C03_set_data_by_data_refused.
+
 (* rename(new str) whose calculated id is a sibling's *)
 Theorem C03_rename_refused : forall w ti n t s q0 i l x d e,
   WFw w -> get_tree w ti = Some t -> get_node n (forest_of t) = Some s ->
